@@ -88,6 +88,9 @@ type Profile struct {
 	FlushMargins    []int
 	EnumFlush       bool // thorough: enumerate every subset of small flushes
 	BigInsertOnly   bool // growth runs: mostly inserts into one table
+	LongLog         int  // > 0: once the first table has GiantRows rows, whole-table UPDATEs follow until this many log records were written
+	LastStmtsOnly   int  // > 0: log-cut images are placed in the last so many statements only
+	GiantRows       int  // > 0: the first table is grown to this many rows by wide INSERTs before anything else happens (more leaves than the default cache holds pages)
 	WideInserts     bool // every INSERT carries MaxRows rows
 }
 
@@ -98,6 +101,7 @@ type gen struct {
 	tags map[string]int64 // next tag per table (db.table)
 	ntab int
 	ndb  int
+	recs int // log records the statements so far have written (predicted)
 }
 
 var identChars = "abcdefghijklmnopqrstuvwxyz"
@@ -1404,9 +1408,15 @@ func (g *gen) composeSelect(db *MDB, t, other *MTable) string {
 // genStmts appends n statements generated against g.m.
 func (g *gen) genStmts(n int, small bool) []Stmt {
 	pf := g.pf
+	if pf.GiantRows > 0 {
+		// a statement may not dirty more pages than the cache holds
+		small = true
+	}
 	var out []Stmt
 	emit := func(s Stmt) {
-		g.apply(&s)
+		if e := g.apply(&s); e.OK {
+			g.recs += e.NOps
+		}
 		out = append(out, s)
 	}
 	for len(out) < n {
@@ -1452,7 +1462,17 @@ func (g *gen) genStmts(n int, small bool) []Stmt {
 		if pf.BigInsertOnly {
 			t = db.Tables[0]
 		}
-		switch g.r.Pick(ws) {
+		pick := g.r.Pick(ws)
+		if pf.GiantRows > 0 && len(t.Rows) < pf.GiantRows {
+			pick = 1
+		} else if pf.LongLog > 0 && g.recs < pf.LongLog && len(t.Cols) > 1 {
+			// every row once more: one log record each
+			u := g.stmtUpdate(db, t, false)
+			u.Where = nil
+			emit(u)
+			continue
+		}
+		switch pick {
 		case 0:
 			emit(g.stmtCreate())
 		case 1:
@@ -1563,7 +1583,7 @@ func (g *gen) genDirectives(stmts []Stmt, mode string) []Directive {
 
 func (g *gen) pickKnobs() Knobs {
 	pf := g.pf
-	k := Knobs{CheckEvery: pf.CheckEvery, TreeEvery: pf.TreeEvery, LRUReverse: g.r.Chance(0.5), ForceFlush: pf.ForceFlush}
+	k := Knobs{CheckEvery: pf.CheckEvery, SparseObserve: pf.GiantRows > 0, TreeEvery: pf.TreeEvery, LRUReverse: g.r.Chance(0.5), ForceFlush: pf.ForceFlush}
 	if len(pf.CacheCaps) > 0 {
 		k.CacheCap = pf.CacheCaps[g.r.Intn(len(pf.CacheCaps))]
 	}
@@ -1715,8 +1735,11 @@ func Generate(pf *Profile, seed uint64) *Plan {
 	// second pass for snapshots (cheap: replay on a fresh model)
 	m := NewModel()
 	models := make([]*Model, len(stmts)+1) // models[i] = state before statement i
+	noImages := pf.Boundary+pf.WalStmts+pf.FlushImgs == 0
 	for i := range stmts {
-		models[i] = m.Clone()
+		if !noImages { // (a giant plan takes no images: 700 clones of 40 000 rows are gigabytes)
+			models[i] = m.Clone()
+		}
 		if e := m.Predict(&stmts[i]); e.OK {
 			e.Apply(m)
 		}
@@ -1755,11 +1778,17 @@ func Generate(pf *Profile, seed uint64) *Plan {
 		var cands []int
 		exps := map[int]*Expect{}
 		for i, s := range stmts {
+			if pf.LastStmtsOnly > 0 && i < len(stmts)-pf.LastStmtsOnly {
+				continue
+			}
 			if s.Kind == KInsert || s.Kind == KUpdate || s.Kind == KDelete {
 				st := s
 				e := models[i].Predict(&st)
 				if !e.OK && e.FailAt <= 0 {
 					continue // refused before its first change: nothing is logged
+				}
+				if pf.LastStmtsOnly > 0 && (e.NOps > 16 || e.FailAt > 8) {
+					continue // every prefix of the statement is an admissible state, each a copy of the table
 				}
 				exps[i] = e
 				cands = append(cands, i)
@@ -1814,6 +1843,11 @@ func Generate(pf *Profile, seed uint64) *Plan {
 			step := 1
 			if nev > 45 {
 				step = 2
+			}
+			if pf.LastStmtsOnly > 0 {
+				// long-log plans: each image is megabytes of files and a recovery
+				// over the whole log - a few cuts per statement
+				step = nev/3 + 1
 			}
 			for ev := r.Intn(step); ev < nev; ev += step {
 				for _, cs := range []bool{false, true} {
@@ -1886,5 +1920,27 @@ func Generate(pf *Profile, seed uint64) *Plan {
 			p.Images = append(p.Images, sel)
 		}
 	}
+	markOnce(p, NewRng(seed^0x0ce))
 	return p
+}
+
+// markOnce: half of the images (at every depth) are recovered once only
+// before their continuation runs (ImageSel.Once).
+func markOnce(p *Plan, r *Rng) {
+	if p == nil {
+		return
+	}
+	seen := map[*Plan]bool{}
+	var walk func(p *Plan)
+	walk = func(p *Plan) {
+		if p == nil || seen[p] {
+			return
+		}
+		seen[p] = true
+		for i := range p.Images {
+			p.Images[i].Once = r.Chance(0.5)
+			walk(p.Images[i].Cont)
+		}
+	}
+	walk(p)
 }
